@@ -2,6 +2,7 @@
 invariant, execute one body, re-establish.  No unrolling, no bound."""
 from __future__ import annotations
 import ast
+import os
 import z3
 from . import ty
 from .ty import T, INT, REAL, BOOL
@@ -68,8 +69,70 @@ def havoc_for_loop(E, st, fr, names, keys, entry, has_yield=True):
     if ("alloc",) in keys:
         r = fresh("r", ty.RefSort)
         st.assume(z3.ForAll([r], z3.Implies(z3.Select(E.alloc(entry), r), z3.Select(E.alloc(st), r)),
-                            patterns=[z3.Select(E.alloc(entry), r)]))
+                            patterns=[z3.Select(E.alloc(st), r)]))
     E.wf_keys(st, keys)
+
+
+import re
+_VERSIONED = re.compile(r"![0-9]+$")
+
+
+def _consts(e, acc, seen):
+    """versioned (fresh) constants occurring in a z3 term"""
+    stack = [e]
+    while stack:
+        t = stack.pop()
+        if t is None:
+            continue
+        i = t.get_id()
+        if i in seen:
+            continue
+        seen.add(i)
+        if z3.is_quantifier(t):
+            stack.append(t.body())
+            continue
+        if z3.is_app(t):
+            if t.num_args() == 0:
+                n = t.decl().name()
+                if _VERSIONED.search(n):
+                    acc.add(n)
+            else:
+                stack.extend(t.children())
+
+
+def live_constants(E, st, fr):
+    acc, seen = set(), set()
+    states = [st] + ([fr.old] if fr.old is not None else []) + list(fr.loop_entry)
+    if st.resume is not None:
+        states.append(st.resume)
+    for s in states:
+        for v in s.locals.values():
+            if getattr(v, "z", None) is not None:
+                _consts(v.z, acc, seen)
+        for arr in s.heap.values():
+            _consts(arr, acc, seen)
+    for v in fr.entry_locals.values():
+        if getattr(v, "z", None) is not None:
+            _consts(v.z, acc, seen)
+    return acc
+
+
+def prune_pc(E, st, fr):
+    """Drop path-condition facts about heap versions / values that are no longer reachable from the current
+    state, the function-entry state or an enclosing loop-entry state.  Dropping assumptions is sound (it can
+    only make an obligation harder to prove); the loop invariant must carry what the continuation needs."""
+    if not getattr(E, "prune", True):
+        return
+    live = live_constants(E, st, fr)
+    kept = []
+    for f in st.pc:
+        acc = set()
+        _consts(f, acc, set())
+        if acc <= live:
+            kept.append(f)
+        elif os.environ.get("PYVC_DEBUG_PRUNE"):
+            print("PRUNE", sorted(acc - live)[:5], str(f)[:160].replace("\n", " "))
+    st.pc[:] = kept
 
 
 def iter_domain(E, it_node, st, fr):
@@ -209,9 +272,11 @@ def exec_for(E, s: ast.For, st, fr):
         st.locals[idxname] = V(INT, z3.IntVal(0))
         hy = any(isinstance(n, ast.Yield) for b in s.body for n in ast.walk(b))
         keys = discover(E, run_body, st, fr, names | {idxname}, hy)
+        E.loop_frame_check(st, fr, keys, k, "frame-entry")
         # 2. havoc + assume invariant at an arbitrary iteration
         head = st
         havoc_for_loop(E, head, fr, names | {idxname}, keys, entry, hy)
+        prune_pc(E, head, fr)
         i = head.locals[idxname].z
         head.assume(i >= 0)
         if dom["kind"] != "list":
@@ -231,12 +296,11 @@ def exec_for(E, s: ast.For, st, fr):
         for o in outs:
             if o.kind in ("ok", "cont"):
                 check_invs(E, fr, o.st, spec, k, "inv-step", o.st.locals[idxname].z)
+                E.loop_frame_check(o.st, fr, keys, k, "frame-step")
             elif o.kind == "break":
                 exits.append(o.st)
             else:
                 result.append(o)
-        for e in exits:
-            e.locals.pop(idxname, None)
         merged = E.merge_states(exits) if len(exits) > 1 else exits[0]
         result.append(Outcome("ok", merged))
         return result
@@ -267,8 +331,10 @@ def exec_while(E, s: ast.While, st, fr):
 
         hy = any(isinstance(n, ast.Yield) for b in s.body for n in ast.walk(b))
         keys = discover(E, run_body, st, fr, names, hy)
+        E.loop_frame_check(st, fr, keys, k, "frame-entry")
         head = st
         havoc_for_loop(E, head, fr, names, keys, entry, hy)
+        prune_pc(E, head, fr)
         assume_invs(E, fr, head, spec, None)
         exit_st = head.copy()
         saved = fr.exc
@@ -287,6 +353,7 @@ def exec_while(E, s: ast.While, st, fr):
         for o in outs:
             if o.kind in ("ok", "cont"):
                 check_invs(E, fr, o.st, spec, k, "inv-step", None)
+                E.loop_frame_check(o.st, fr, keys, k, "frame-step")
                 if dec0 is not None:
                     dec1 = E.sev(spec.decreases, o.st, fr).z
                     E.oblige(fr, o.st, "decreases", f"loop{k}", z3.And(dec0 >= 0, dec1 < dec0), info=spec.decreases)
